@@ -142,12 +142,41 @@ Definition trim (l : bytes) : bytes := rev (ltrim (rev (ltrim l))).
 Definition is_host_key (k : bytes) : bool := bytes_eqb (map lower (trim k)) [104; 111; 115; 116].
 Definition first_host_header (hs : list (bytes * bytes)) : option bytes :=
   match find (fun kv => is_host_key (fst kv)) hs with Some kv => Some (trim (snd kv)) | None => None end.
-(* host[:port] -> host; only the plain reg-name form is in the theorem's scope (wf_name) *)
-Definition drop_port (v : bytes) : bytes :=
-  (fix go (l : bytes) := match l with [] => [] | 58 :: _ => [] | b :: r => b :: go r end) v.
+(* The name a Host field value stands for, as sniffing.NormalizeDomain documents it: lower-cased;
+   "[v6]" and "[v6]:port" give the address without brackets; "host:port" gives the host part as it
+   stands; a plain host name loses one trailing dot. *)
+Fixpoint before (c : N) (l : bytes) : bytes :=
+  match l with [] => [] | b :: r => if b =? c then [] else b :: before c r end.
+Fixpoint after (c : N) (l : bytes) : option bytes :=
+  match l with [] => None | b :: r => if b =? c then Some r else after c r end.
+Definition host_value_name (v : bytes) : bytes :=
+  let l := map lower v in
+  match l with
+  | 91 :: r => before 93 r
+  | _ => match after 58 l with None => strip_dot l | Some _ => before 58 l end
+  end.
+Definition is_digit (b : N) : bool := (48 <=? b) && (b <=? 57).
+Definition v6_char (b : N) : bool :=
+  is_digit b || ((97 <=? lower b) && (lower b <=? 102)) || (b =? 58) || (b =? 46).
+(* Host values in the scope of the HTTP theorem: a plain name, name ":" digits, "[" v6 "]", "[" v6 "]:" digits *)
+Definition wf_host_value (v : bytes) : bool :=
+  match v with
+  | 91 :: r =>
+      forallb v6_char (before 93 r) && negb (length (before 93 r) =? 0)%nat
+      && match after 93 r with
+         | Some [] => true
+         | Some (58 :: port) => forallb is_digit port
+         | _ => false
+         end
+  | _ => match after 58 v with
+         | None => wf_name v
+         | Some port => forallb host_char (before 58 v) && negb (length (before 58 v) =? 0)%nat
+                        && forallb is_digit port
+         end
+  end.
 Definition host_of (q : http_head) : outcome :=
   match first_host_header (q_headers q) with
-  | Some v => if (length v =? 0)%nat then NotFound else Found (norm_name (drop_port v))
+  | Some v => if (length v =? 0)%nat then NotFound else Found (host_value_name v)
   | None => NotFound
   end.
 
@@ -161,7 +190,7 @@ Definition wf_head (q : http_head) : bool :=
   && forallb (fun kv => forallb host_char (fst kv) && negb (length (fst kv) =? 0)%nat
                         && forallb (fun b => ((32 <=? b) && (b <=? 126)) || (b =? 9)) (snd kv)) (q_headers q)
   && match first_host_header (q_headers q) with
-     | Some v => wf_name v
+     | Some v => wf_host_value v
      | None => true
      end.
 
